@@ -1,7 +1,7 @@
 (** C15 — URL, query and parameter decoding is total and happens exactly once.
     Statements only; proofs live in Router/UrlProofs.v. *)
 From Coq Require Import List NArith.
-From LV Require Import Base.Bytes Router.Url Router.UrlProofs.
+From LV Require Import Base.Bytes Router.Url Router.UrlProofs Router.UrlOnceProofs.
 Import ListNotations.
 Open Scope N_scope.
 
@@ -76,3 +76,17 @@ Theorem C15_level_values_decoded_once :
     exists lvl r, In lvl own /\ In (k, r) lvl /\ v = unescape r.
 Proof. exact level_values_decoded_once. Qed.
 Print Assumptions C15_level_values_decoded_once.
+
+(** "exactly once" from the other side: raw text that was escaped twice is read back escaped
+    once — never decoded a second time — by Url::unescape, ParamsMap::insert/replace + get_str /
+    get_all, the query parser, and flat and nested route parameters *)
+Theorem C15_decoded_exactly_once_not_twice :
+  forall m k v, str_ok k -> str_ok v ->
+  unescape (escape (escape v)) = escape v
+  /\ get_str (insert m k (escape (escape v))) k = Some (escape v)
+  /\ get_all (replace m k (escape (escape v))) k = Some [escape v]
+  /\ parse_search_params ([47; 63] ++ escape k ++ [61] ++ escape (escape v)) = [(k, [escape v])]
+  /\ route_params [(k, escape (escape v))] = [(k, [escape v])]
+  /\ params_including_parents [[(k, escape (escape v))]] = [(k, [escape v])].
+Proof. exact decoded_exactly_once_not_twice. Qed.
+Print Assumptions C15_decoded_exactly_once_not_twice.
